@@ -83,7 +83,7 @@ func init() {
 		cp := &campaign{Prop: "C11", Tier: tier, Seed: seed, Only: only, N: tierN(tier, 60, 600), Variants: allVariants,
 			MaxStr: 200, NLong: 30, Probe: true}
 		cp.Make = func(r *rand.Rand, i int) *spec.Grammar {
-			return gen.Rich(r, gen.RichCfg{Names: i%2 == 0, IntTags: true})
+			return gen.Rich(r, gen.RichCfg{Names: i%2 == 0, IntTags: true, EOFAlias: true})
 		}
 		cp.Judge = func(c *gcase, o *Outcome) {
 			var goT *pipe.Table
@@ -120,6 +120,14 @@ func init() {
 						if !ok {
 							// not among the probed codes: skip (probe covers -3..299, explicit numbers and 700 random)
 							o.count("gen:token_codes_not_probed", 1)
+							continue
+						}
+						if tk.IsEOFAlias() {
+							if code != -1 || id != 1 {
+								o.Status = "violated"
+								o.Detail = fmt.Sprintf("%s: end-marker alias %s has constant %d and translates to symbol %d (expected -1 and the end marker)", v, tk.Name, code, id)
+								return
+							}
 							continue
 						}
 						want := strings.TrimSpace(tk.TraceName())
